@@ -147,6 +147,24 @@ def _work(job: t.Tuple[t.Any, ...]) -> evid.Local:
                 for dn in (False, True):
                     for v in (b"", b"v", b":dn:", b":", b"dn", b":=", b"dn:=x"):
                         rec(L.FilterExtensibleMatch(rule, a, v, dn), "ext")
+        # matching rules an LDAP product gives a special meaning (Active Directory's bitwise and in-chain rules) with values
+        # that look like numbers in another base, and values that look like URL escapes: RFC 4515 gives neither any meaning
+        for rule in ("1.2.840.113556.1.4.803", "1.2.840.113556.1.4.804", "1.2.840.113556.1.4.1941", "2.5.13.2"):
+            for a in ("userAccountControl", None):
+                for v in (b"0x2", b"0X1F", b"2", b"010", b"0b1", b"-1", b"1e3", b"%32", b"%25"):
+                    rec(L.FilterExtensibleMatch(rule, a, v, False), "ext")
+        for v in (b"100%25", b"%", b"%%", b"%2", b"%41", b"x%29%28uid=%2a", b"%5c28", b"+", b"a+b", b"&amp;", b"&#40;", b"\\u0028", b"$(x)", b"${x}", b"{0}", b"%s", b"%(a)s"):
+            for name, mk in LEAF_MAKERS:
+                rec(mk(v, "cn"), name)
+            rec(L.FilterAnd([L.FilterEquality("objectClass", b"person"), L.FilterEquality("cn", v)]), "pct")
+            rec(L.FilterSubstrings("cn", v, [v], v), "pct")
+        # one object used at two places of a tree (an application builds `enabled = FilterNot(...)` once and uses it twice)
+        shared_not = L.FilterNot(L.FilterEquality("userAccountControl", b"2"))
+        shared_and = L.FilterAnd([L.FilterPresent("mail"), shared_not])
+        shared_leaf = L.FilterEquality("cn", b"x")
+        for f in (L.FilterOr([shared_not, L.FilterAnd([L.FilterPresent("cn"), shared_not])]), L.FilterAnd([shared_and, shared_and]), L.FilterAnd([shared_leaf, L.FilterNot(shared_leaf), shared_leaf]),
+                  L.FilterOr([L.FilterAnd([shared_and, shared_not]), L.FilterNot(shared_and)])):
+            rec(f, "shared")
         loc.distinct.add(("ext",))
     elif fam == "large":
         # beyond short values and shallow trees
@@ -249,7 +267,10 @@ def run(ctx: evid.Ctx) -> None:
         evid.absorb(ctx, loc)
     ctx.counters["evaluations"] = ctx.counters.get("states", 0)
     for f in (LEAF_MAKERS[0][1](b")(x=*", "cn"), L.FilterSubstrings("cn", b"*", [b"\\", b"("], b"\x00"), t2[-1]):
-        ctx.sample({"filter": A.src(f), "text": str(f)})
+        try:
+            ctx.sample({"filter": A.src(f), "text": str(f)})
+        except BaseException:  # noqa: BLE001 - reported by check_one
+            ctx.sample({"filter": A.src(f)})
     ctx.rule = (
         "one case = one filter object; str(f) is parsed back by the library (must equal f), recognised by the strict RFC 4515 "
         "reference (no spaces, every special octet escaped) and must denote abs(f) there; distinct_nontrivial counts the "
@@ -281,4 +302,8 @@ def replay(case: t.Dict[str, t.Any], key: t.Optional[str] = None) -> t.Tuple[boo
         return same_filter(back, node), f"{shape} chain nested {depth} deep: text form parses back to an equal tree: {same_filter(back, node)}"
     f = A.unsrc(case["filter"])
     r = check_one(f)
-    return (r is None), f"{case['filter'][:300]}\n  text: {str(f)!r}" + (f"\n  {r[0]}: {r[1]}" if r else "\n  round-trips")
+    try:
+        text = repr(str(f))
+    except BaseException as e:  # noqa: BLE001
+        text = f"<str() raised {type(e).__name__}>"
+    return (r is None), f"{case['filter'][:300]}\n  text: {text}" + (f"\n  {r[0]}: {r[1]}" if r else "\n  round-trips")
